@@ -17,6 +17,7 @@ import typing
 from core import framework as fw
 from core import sexp
 
+from . import c08schema as cs
 from . import dslgen as g
 
 M61 = 2 ** 61 - 1
@@ -115,15 +116,7 @@ def _reset_caches() -> None:
     """Empty forml's process-wide lru_caches that are keyed by DSL objects, so that a case depends on the objects of
     that case only and every reported witness replays in a fresh process (what an *earlier* object of the same
     process does to a later one is what the pair itself examines: x is built and used before y)."""
-    from forml.io._input import _producer
-    from forml.io.dsl import parser as parsmod
-    from forml.io.dsl._struct import frame
-
-    for fn in (frame.Source.__getitem__, frame.Source.Schema.__getitem__, getattr(_producer.Reader, '_parse_statement', None),
-               getattr(_producer.Reader, '_match_entry', None), getattr(parsmod.Visitor, 'generate_feature', None)):
-        clear = getattr(fn, 'cache_clear', None)
-        if clear is not None:
-            clear()
+    cs.reset_caches()
 
 
 def observe(pair: dict) -> dict:
@@ -297,11 +290,66 @@ def observe_family(fam: dict) -> dict:
         member.append(_truth(lambda k=k: k in members))
     out['found'] = found
     out['member'] = member
+    if fam['sort'] == 'source':
+        out.update(_family_caches(fam, again, used))
     return out
 
 
+def _family_caches(fam: dict, objs: list, used: list) -> dict:
+    """The caches keyed by statements, over a whole family: every statement is parsed through ONE reader instance
+    (`Reader._parse_statement`, an lru_cache keyed by reader and statement) and ONE parser instance, in the family's order
+    and then backwards (so each is asked for once cold and once after all its neighbours), and read through the cached
+    `Source.__getitem__`; each answer must be the one a parser / source that has seen nothing else gives."""
+    out: dict = {}
+    try:
+        Parser, Reader, Sources, Features = _term_parser()
+        stmts, fresh = [], []
+        for j, o in enumerate(objs):
+            try:
+                if has_window(fam['keys'][used[j]]):  # (a window is readable once: finding C08-F1, examined pair-wise)
+                    raise ValueError('window')
+                st = o.statement
+                fresh.append(_parse(Parser(Sources(), Features()), st))
+                stmts.append(st)
+            except RecursionError:
+                stmts.append(None)
+                fresh.append(None)
+            except Exception:  # pylint: disable=broad-except
+                stmts.append(None)
+                fresh.append(None)
+        reader, shared = Reader(Sources(), Features()), Parser(Sources(), Features())
+        order = [i for i in range(len(objs)) if stmts[i] is not None]
+        bad_reader, bad_parser = [], []
+        for i in order + order[::-1]:
+            try:
+                if reader._parse_statement(stmts[i]) != fresh[i]:  # pylint: disable=protected-access
+                    bad_reader.append(i)
+                if _parse(shared, stmts[i]) != fresh[i]:
+                    bad_parser.append(i)
+            except RecursionError:
+                pass
+            except Exception as e:  # pylint: disable=broad-except
+                bad_reader.append([i, f'raises:{type(e).__name__}'])
+        out['cache'] = {'parsed': len(order), 'reader': bad_reader, 'parser': bad_parser,
+                        'distinct': len({repr(fresh[i]) for i in order}) == len(order)}
+        items = []
+        for j, o in enumerate(objs):
+            got = _items(o, fam['keys'][used[j]])
+            if got:
+                items.append([j, got[:2]])
+        out['items'] = items
+    except RecursionError:
+        out['cache'] = None
+    return out
+
+
+def observe_hier(case: dict) -> dict:
+    _reset_caches()
+    return cs.observe_hier(case)
+
+
 def _observe_chunk(chunk: list) -> list:
-    return [observe_family(p) if 'keys' in p else observe(p) for p in chunk]
+    return [observe_hier(p) if 'prog' in p else observe_family(p) if 'keys' in p else observe(p) for p in chunk]
 
 
 # ---- canonical forms for attributing a violation to a root cause ---------------------------------------------------
@@ -359,7 +407,7 @@ def _lits(ast):
 
 class C08(fw.Check):
     ID = 'C08'
-    LEAN_MODULES = ['ForML.Props.C08', 'ForML.Lemmas.C08Legacy']
+    LEAN_MODULES = ['ForML.Props.C08', 'ForML.Lemmas.C08Legacy', 'ForML.Lemmas.C08Schema']
     DRIVER = 'drv_c08'
     RULE = ('pairs of ASTs over the 3-table catalog of props/dslgen.py, built by two independent builders through the '
             'public DSL API: (a) the same statement / feature / kind rebuilt twice, (b) exactly one leaf changed '
@@ -371,22 +419,39 @@ class C08(fw.Check):
             'dict, every key looked up again through a rebuilt copy; a case is distinct by its ASTs and non-trivial '
             'when it was built and has >= 3 nodes. Observed on the real code: ==, bool(Equal(x, y)), hash, in dict, in '
             'set, pickle round trip fresh and after use, source[name] after the other object was built, schema ==/hash/'
-            'pickle, parser and reader caches, dict.get over a family; pyIntHash vs hash(n) on 10^4 integers. Oracle: '
-            'structural identity of the ASTs.')
+            'pickle, parser and reader caches (pair-wise and over a whole family through one Reader / parser instance), '
+            'dict.get over a family; pyIntHash vs hash(n) on 10^4 integers. (g) class hierarchies (props/c08schema.py): '
+            'programs of 1-5 class statements - `class N(dsl.Schema | table)`, `class N(schema, ...)` with several bases, '
+            'from_fields, from_record; overriding inherited attributes with the same / another / no explicit name, explicit '
+            'names != keys, twin class names, risky names; 11 documented shapes first; ~35% also with a one-leaf variant '
+            '(field kind / name / key / order / added field / class name) side by side - each built twice and against its '
+            'flat equivalent, all class pairs compared, schema / table / reference / queries through pickle and cloudpickle; '
+            'distinct by program, non-trivial with >= 2 classes and a base. (h) fresh interpreters: a random creation order of '
+            'the 7 primitive kinds (repeats), compound kinds, reflect of python values (Decimal, date, datetime, lists, '
+            'dicts), literals and hierarchies, plus objects of (g) shipped from the process that built them. Oracle: '
+            'structural identity of the ASTs / of the documented resolution of a hierarchy.')
     TRUSTED = [
         'CPython str / type / tuple / float hashing is not modelled (free hash environment: no collisions); '
         'accidental 64-bit collisions of those are outside the claim (with structural == they cost time, not identity)',
         'functools.lru_cache and dict are assumed to look keys up by hash and then == (modelled by dictGet)',
         'pickle protocol: modelled only as "reconstruction from __getnewargs__ succeeds with the same content or not"',
         'float literals are modelled by their repr: -0.0 / nan (whose == disagrees with repr) are not generated',
+        'pickle memoises: every class of a hierarchy is reduced and rebuilt once, bases first (encode / buildAll)',
+        'python\'s C3 linearisation is modelled (c3merge) and compared with python\'s own on every generated program',
     ]
     ASSUMPTIONS = [
         'a comparison between statements where an optional clause (where / having / join condition) is present on '
         'one side only raises ValueError (Literal(None)) once all earlier terms are equal: modelled (raises), not '
         'counted as a violation - the property speaks of objects comparing equal, and a raising == can neither confuse '
         'a lookup nor answer one',
-        'literal values are int / bool / str / float; Decimal / date / datetime literals and array / map / struct '
-        'literals are not generated',
+        'literal values inside statements are int / bool / str / float (Decimal / date / datetime / list / dict values '
+        'are generated for reflect and Literal(...).kind only)',
+        'the structure of a table is the name of its class (the schema name for `class N(dsl.Schema)`, `Table` for '
+        'dsl.Table(schema)) and the resolved ordered (name, kind) list; schema titles and attribute keys are labels - '
+        'what Source.__eq__ / Schema.__eq__ implement consistently (hash, pickling)',
+        'when the name of one field is the attribute key of another, `table[x]` is documented for both spellings and the '
+        'key wins: access checks and statements are left out for such schemas',
+        'schemas built by Schema.from_path and non-schema mixin bases are not generated',
     ]
 
     # ---- generation ------------------------------------------------------------------------------------------
@@ -552,6 +617,395 @@ class C08(fw.Check):
                 fams.append({'sort': sort, 'label': 'family', 'keys': keys})
         return fams
 
+
+    # ---- schemas from class hierarchies (props/c08schema.py) ---------------------------------------------------------
+    #: documented shapes first: the example of the `dsl.Schema` docs, the ordering / override rules, functional schemas
+    HIER_CORPUS = (
+        ('doc-example', (('decl', 'Person', (), (('surname', None, 'string'), ('dob', 'birthday', 'date'))),
+                         ('decl', 'Student', (0,), (('level', None, 'integer'), ('score', None, 'float'))))),
+        ('override-renamed', (('decl', 'Base', (), (('first', None, 'integer'), ('fixme', 'old', 'float'))),
+                              ('decl', 'Child', (0,), (('last', None, 'integer'), ('fixme', 'new', 'string'))))),
+        ('override-renamed-3', (('decl', 'A', (), (('first', None, 'integer'), ('mid', 'old', 'string'), ('last', None, 'float'))),
+                                ('decl', 'B', (0,), (('mid', 'new', 'date'), ('extra', None, 'integer'))),
+                                ('decl', 'C', (1,), (('mid', 'newer', 'timestamp'), ('first', None, 'decimal'))))),
+        ('override-same-name', (('decl', 'A', (), (('k', 'n', 'integer'), ('b', None, 'string'))),
+                                ('decl', 'B', (0,), (('k', 'n', 'float'),)), ('decl', 'C', (1,), ()))),
+        ('explicit-names', (('decl', 'A', (), (('points', 'score', 'float'), ('x', 'x y', 'integer'), ('id', 'Id', 'integer'))),
+                            ('meta', 'B', (0,), (('more', 'n1', ('array', 'string')),)))),
+        ('multi-base', (('meta', 'A', (), (('a', None, 'integer'),)), ('meta', 'B', (), (('b', 'bee', 'string'),)),
+                        ('meta', 'AB', (0, 1), (('c', None, 'date'),)), ('meta', 'BA', (1, 0), (('c', None, 'date'),)))),
+        ('diamond', (('meta', 'T', (), (('k', 'n0', 'integer'), ('t', None, 'string'))), ('meta', 'L', (0,), ()),
+                     ('meta', 'R', (0,), (('k', 'n1', 'float'), ('r', None, 'date'))), ('meta', 'D', (1, 2), (('d', None, 'boolean'),)))),
+        ('functional', (('fields', 'F', (), (('_0', 'A', 'integer'), ('_1', 'B', 'string'), ('_2', None, 'float'))),
+                        ('record', 'R', (), (('_0', 'name', 'string'), ('_1', 'age', 'integer'), ('_2', None, 'timestamp'))),
+                        ('meta', 'X', (0,), (('more', None, 'date'),)))),
+        ('duplicate-name', (('decl', 'P', (), (('first', None, 'integer'), ('mid', 'old', 'string'))),
+                            ('decl', 'C', (0,), (('mid', 'new', 'date'),)),
+                            ('decl', 'G', (1,), (('other', 'new', 'integer'),)))),
+        ('equal-classes', (('meta', 'C0', (), (('a', None, 'integer'),)), ('meta', 'C1', (0,), ()),
+                           ('meta', 'C2', (0,), (('b', None, 'string'),)), ('meta', 'C3', (1, 2), (('c', None, 'date'),)))),
+        ('key-twins', (('decl', 'C0', (), (('mid', None, 'boolean'), ('k1', 'n2', 'integer'))),
+                       ('decl', 'C0', (), (('mid', None, 'boolean'), ('q1', 'n2', 'integer'))))),
+        ('twins', (('decl', 'T', (), (('a', None, 'integer'), ('b', 'bee', 'string'))),
+                   ('decl', 'U', (), (('a', None, 'integer'), ('b', 'bee', 'string'))),
+                   ('decl', 'T', (), (('a', None, 'integer'), ('bee', None, 'string'))),
+                   ('decl', 'T', (), (('b', 'bee', 'string'), ('a', None, 'integer'))))),
+    )
+
+    def _hier_cases(self) -> list:
+        r = self.rng
+        gen = cs.HGen(r)
+        cases = [{'label': 'hier:' + label, 'prog': prog} for label, prog in self.HIER_CORPUS]
+        for _ in range(self.n(110, 4000)):
+            prog = gen.prog()
+            cases.append({'label': 'hier', 'prog': prog})
+            if r.random() < 0.35:
+                # the same hierarchy with one leaf changed, side by side in one program (classes n.. = the variant)
+                for label, mut in cs.mutations(prog, r, limit=1):
+                    n = len(prog)
+                    # (an extended class of the variant gets another name: two equal declared tables that are
+                    # extended further are what finding C08-F4 is about)
+                    shifted = tuple((via, name + ('_' if any(k in b for _, _, b, _ in mut) else ''), tuple(b + n for b in bases), ns)
+                                    for k, (via, name, bases, ns) in enumerate(mut))
+                    cases.append({'label': 'hier:mutation:' + label, 'prog': prog + shifted})
+        return cases
+
+    @staticmethod
+    def _key_twins(prog, outcome) -> bool:
+        """Two declared tables of the program are equal (class name, fields) although they are different classes -
+        spelling an attribute key differently, or being extended further: they share the cache of
+        `Source.__getitem__`, so `table.schema` of the later one (also when a class statement extends it) is the schema
+        class of the earlier one (finding C08-F4)."""
+        groups: dict = {}
+        for i in range(len(prog)):
+            if outcome[i] == 'ok':
+                ent = cs.spec_entries(prog, i)
+                if ent is not None:
+                    key = (cs.table_name(prog, i), tuple((n, k) for _, n, k in ent))
+                    groups.setdefault(key, []).append((tuple(ent), prog[i][0] == 'decl' and any(i in b for _, _, b, _ in prog)))
+        return any(len(m) > 1 and (len({e for e, _ in m}) > 1 or any(x for _, x in m)) for m in groups.values())
+
+    def _oracle_hier(self, case: dict, obs: dict) -> list:
+        """[(what, signature, class index)] — the property on the schemas / tables / statements of one program"""
+        out = []
+        prog = case['prog']
+
+        keytwins = self._key_twins(prog, obs['outcome'])
+
+        def bad(i, what, sig):
+            # two equal tables that are different classes share forml's caches (C08-F4): whatever goes through item
+            # access / `.schema` of one of them - building statements included - may be answered by the other
+            if keytwins and sig.startswith('schema:'):
+                sig = 'equal-tables-different-keys'
+            out.append((f'{what} [{case["label"]}, class {i} {prog[i][1]}]', sig, i))
+
+        if obs['outcome'] != obs['outcome2']:
+            # (the second build of an extended declared table is an equal twin of the first: its children are handed
+            # the schema class of the first build as their base - C08-F4 - which shows where several bases are linearised)
+            extended = any(via == 'decl' and any(i in b for _, _, b, _ in prog) for i, (via, _, _, _) in enumerate(prog))
+            bad(0, f'the same class statements executed twice end differently: {obs["outcome"]} / {obs["outcome2"]}',
+                'equal-tables-different-keys' if extended else 'schema:nondeterministic')
+        for i, rec in enumerate(obs['classes']):
+            if rec is None:
+                continue
+            want = cs.spec_fields(prog, i)
+            entries = cs.spec_entries(prog, i)
+            if want is None:
+                bad(i, 'a class whose bases python itself cannot linearise was created',
+                    'equal-tables-different-keys' if keytwins else 'schema:mro')
+                continue
+            if rec['fields'] != want or rec['len'] != len(want):
+                # (a class statement over a key twin may be handed the schema of the other twin: C08-F4)
+                bad(i, f'the schema is not the documented resolution of its hierarchy: {rec["fields"]} (len {rec["len"]}) instead of {want}',
+                    'equal-tables-different-keys' if keytwins else 'schema:resolution')
+                continue
+            names = [n for n, _ in want]
+            dup = len(set(names)) != len(names)
+
+            access_sig = 'schema-duplicate-name' if dup else 'equal-tables-different-keys' if keytwins else 'schema:access'
+
+            def copy_sig(c, base, access_sig=access_sig):
+                if isinstance(c, dict) and copy_ok_but_access(c):
+                    return access_sig
+                return base
+
+            if rec['table'] != ('table', cs.table_name(prog, i), want):
+                bad(i, f'the table reads {rec["table"]}', 'schema:table')
+            for grp, sig in (('rebuilt', 'schema:rebuilt'), ('flat', 'schema:flat')):
+                v = rec.get(grp)
+                if isinstance(v, dict):
+                    for what, c in v.items():
+                        if not cs.copy_ok(c):
+                            how = 'the same hierarchy built twice' if grp == 'rebuilt' else 'a hierarchy and the flat class with the same fields'
+                            bad(i, f'{how}: {what}s differ: {_brief(c)}', copy_sig(c, f'{sig}:{what}'))
+                elif isinstance(v, str) and not dup:
+                    bad(i, f'the flat class with the resolved fields of the hierarchy is refused: {v}', 'schema:flat-refused')
+            if rec['access']:
+                bad(i, f'attribute / item access does not return the column of the field: {rec["access"][:3]}', access_sig)
+            for key, c in rec['pickle'].items():
+                tag, codec = key.split('/')
+                if isinstance(c, dict) and cs.copy_ok(c):
+                    continue
+                if codec == 'cloudpickle':  # classes by value through cloudpickle's own reducer: one root cause (C08-F3)
+                    bad(i, f'cloudpickle round trip of the {tag}: {_brief(c)}', 'cloudpickle-by-value')
+                else:
+                    bad(i, f'pickle round trip of the {tag}: {_brief(c)}', copy_sig(c, 'schema:pickle'))
+            for j, c in enumerate(rec.get('stmts', ())):
+                if not (isinstance(c, dict) and cs.copy_ok(c)):
+                    bad(i, f'statement {j} over the table built twice: {_brief(c)}', 'schema:statement')
+        for i, j, p in obs['pairs']:
+            fi, fj = cs.spec_fields(prog, i), cs.spec_fields(prog, j)
+            ri, rj = obs['classes'][i], obs['classes'][j]
+            if ri is None or rj is None or ri['fields'] != fi or rj['fields'] != fj:
+                continue
+            same = fi == fj
+            sch = [p['schema_eq'], p['schema_eq_rev'], p['schema_hash'], p['schema_in']]
+            if same and sch != ['true', 'true', True, 'true']:
+                bad(j, f'schemas with the same fields as class {i}: ==, == reversed, hash equal, in dict = {sch}', 'schema:equal')
+            if not same and 'true' in (sch[0], sch[1], sch[3]):
+                bad(j, f'schemas with different fields ({fi} / {fj}): ==, == reversed, hash equal, in dict = {sch}', 'schema:distinct')
+            tsame = same and cs.table_name(prog, i) == cs.table_name(prog, j)
+            tab = [p['table_eq'], p['table_eq_rev'], p['table_hash'], p['table_in']]
+            if tsame and (tab != ['true', 'true', True, 'true'] or p['table_ne'] != 'false'):
+                bad(j, f'tables of one class name and the same fields as class {i}: ==, == reversed, hash equal, in dict = {tab}, != {p["table_ne"]}',
+                    'schema:table-equal')
+            if not tsame and ('true' in (tab[0], tab[1], tab[3]) or p['table_ne'] == 'false'):
+                bad(j, f'different tables (class {i}): ==, == reversed, hash equal, in dict = {tab}, != {p["table_ne"]}', 'schema:table-distinct')
+        return out
+
+    @staticmethod
+    def _impl_outcome(o: str) -> str:
+        return {'ok': 'ok', 'GrammarError': 'grammar', 'TypeError': 'type-error', 'skipped': 'skipped'}.get(o, o)
+
+    def _hierarchies(self) -> list:
+        """Correspondence + oracle for the hierarchy cases; returns the cases with their observations."""
+        cases = self._hier_cases()
+        observations = self._observe_all(cases)
+        answers = self.model([sexp.dumps(('schema', cs.prog_sexp(c['prog']))) for c in cases])
+        eq_lines, eq_index = [], []
+        first: dict = {}
+        for case, obs, answer in zip(cases, observations, answers):
+            prog = case['prog']
+            mod = sexp.loads(answer)
+            nontrivial = len(prog) >= 2 and any(b for _, _, b, _ in prog)
+            shape = 'hier ' + ('multi-base' if any(len(b) > 1 for _, _, b, _ in prog) else 'chain' if nontrivial else 'flat') \
+                + (' override' if any(cs.spec_entries(prog, i) is not None and len(cs.spec_entries(prog, i)) < sum(len(prog[c][3]) for c in (cs.spec_mro(prog, i) or ()))
+                                      for i in range(len(prog))) else '')
+            self.case(('hier', prog), shape, nontrivial=nontrivial,
+                      sample={'label': case['label'], 'prog': sexp.dumps(cs.prog_sexp(prog))[:300], 'outcome': obs['outcome']}
+                      if len(self.samples) < 8 and nontrivial and self.rng.random() < 0.02 else None)
+            if not isinstance(mod, list) or len(mod) != len(prog):
+                self.diverge('schema hierarchy: model answer', {'hier': _jsonable_hier(case)}, obs['outcome'], mod)
+                continue
+            impl, modl = [], []
+            for i, rec in enumerate(obs['classes']):
+                m = mod[i]
+                if rec is None:
+                    impl.append(self._impl_outcome(obs['outcome'][i]))
+                    modl.append('grammar' if m in ('grammar-bases', 'grammar-field') else m if isinstance(m, str) else 'ok')
+                    continue
+                pick = rec['pickle'].get('schema/pickle')
+                impl.append(['ok', _listify(rec['fields']), rec['table'][1] if isinstance(rec['table'], tuple) else rec['table'],
+                             isinstance(pick, dict) and cs.copy_ok(pick)])
+                modl.append([m[0], _listify(m[1]), m[2], m[3] == 'true'] if isinstance(m, list) and len(m) == 4 else m)
+            if impl != modl and not self._key_twins(prog, obs['outcome']):
+                self.diverge('schema hierarchy: outcome / resolved fields / table class / pickle', {'hier': _jsonable_hier(case)}, impl, modl)
+            for i, j, p in obs['pairs']:
+                ri, rj = obs['classes'][i], obs['classes'][j]
+                if ri is not None and rj is not None and isinstance(ri['fields'], tuple) and isinstance(rj['fields'], tuple):
+                    eq_lines.append(sexp.dumps(('schemaeq', ri['fields'], rj['fields'])))
+                    eq_index.append((case, i, j, [p['schema_eq'], 'true' if p['schema_hash'] is True else 'false']))
+            for what, sig, i in self._oracle_hier(case, obs):
+                if sig not in first:
+                    first[sig] = (len(self.violations), case, i)
+                self.violate(what, {'kind': 'hier', 'label': case['label'], 'prog': prog, 'cls': i}, sig)
+        for (case, i, j, impl), answer in zip(eq_index, self.model(eq_lines) if eq_lines else []):
+            a = sexp.loads(answer)
+            # (`Schema.__hash__` is the xor of the field hashes: schemas holding the same fields in another order hash
+            # equal - the free hash environment of the model only says where the hashes are *forced* to agree)
+            if not (isinstance(a, list) and len(a) == 3 and a[1] == impl[0] and (a[2] != 'true' or impl[1] == 'true')):
+                self.diverge('Schema.__eq__ / __hash__ of two classes of a program', {'hier': _jsonable_hier(case), 'classes': [i, j]}, impl, a)
+        self._shrink_hier(first)
+        return list(zip(cases, observations))
+
+    def _known_signatures(self) -> set:
+        """signatures of the listed findings (their witnesses are minimal already: nothing to shrink)"""
+        if not hasattr(self, '_known_sigs'):
+            try:
+                self._known_sigs = {e.get('signature') for e in fw._load_findings(self.ID) if e.get('status') == 'finding'}  # pylint: disable=protected-access
+            except Exception:  # pylint: disable=broad-except
+                self._known_sigs = set()
+        return self._known_sigs
+
+    def _shrink_hier(self, first: dict) -> None:
+        """Replace the first witness of every signature by a smaller program that still violates the same way: the
+        ancestors of the class only, then single fields / childless classes dropped while the signature stays."""
+        todo = [(sig, v) for sig, v in first.items() if sig not in self._known_signatures()][:6]
+        for sig, (idx, case, i) in todo:
+            best = (case['prog'], i)
+            for _ in range(4):
+                cands = _smaller_programs(*best)
+                if not cands:
+                    break
+                obs = self._observe_all([{'label': case['label'] + ' (shrunk)', 'prog': p, 'target': t} for p, t in cands])
+                hit = None
+                for (p, t), o in zip(cands, obs):
+                    found = [(w, s, c) for w, s, c in self._oracle_hier({'label': case['label'] + ' (shrunk)', 'prog': p}, o) if s == sig]
+                    if found and (hit is None or _prog_size(p) < _prog_size(hit[0])):
+                        hit = (p, found[0][2], found[0][0])
+                if hit is None or _prog_size(hit[0]) >= _prog_size(best[0]):
+                    break
+                best = (hit[0], hit[1])
+                self.violations[idx] = fw.Violation(hit[2], {'kind': 'hier', 'label': case['label'] + ' (shrunk)', 'prog': hit[0], 'cls': hit[1]}, sig, None)
+
+    # ---- fresh interpreters: creation orders of kinds, objects shipped between processes --------------------------
+    def _fresh_jobs(self, hier: list) -> list:
+        r = self.rng
+        gen = cs.HGen(r)
+        # objects of the hierarchy cases to be shipped (target class of programs that were built)
+        blobs = []
+        for case, obs in hier:
+            prog = case['prog']
+            t = case.get('target', len(prog) - 1)
+            rec = obs['classes'][t] if t < len(obs['classes']) else None
+            if rec is not None and rec.get('blobs') and rec['fields'] == cs.spec_fields(prog, t):
+                blobs.append({'prog': prog, 'target': t, 'objs': rec['blobs'], 'label': case['label']})
+        njobs = 12 if self.quick else 160  # (not escalated: a new interpreter costs seconds)
+        corpus = [b for b in blobs if b['label'] != 'hier']
+        rest = [b for b in blobs if b['label'] == 'hier']
+        r.shuffle(rest)
+        take = corpus + rest[:max(0, njobs * (5 if self.quick else 12) - len(corpus))]
+        jobs = []
+        for j in range(njobs):
+            prims = list(cs.PRIMITIVES) + r.sample(cs.PRIMITIVES, 3)
+            r.shuffle(prims)
+            ops = [('kind', p) for p in prims]
+            for _ in range(4):
+                ops.insert(r.randrange(len(ops) + 1), ('kind', self._kind(2)))
+            for _ in range(5):
+                ops.insert(r.randrange(len(ops) + 1), ('reflect', gen.value(2)))
+            for _ in range(3):
+                ops.insert(r.randrange(len(ops) + 1), ('literal', gen.value(0)))
+            for _ in range(2):
+                ops.insert(r.randrange(len(ops) + 1), ('hier', gen.prog()))
+            if j == 0:  # the inheriting pair of kind classes, either way round, before anything else
+                ops = [('kind', 'date'), ('kind', 'timestamp')] + ops
+            elif j == 1:
+                ops = [('kind', 'timestamp'), ('kind', 'date')] + ops
+            jobs.append({'ops': tuple(ops), 'blobs': tuple(take[j::njobs])})
+        return jobs
+
+    def _oracle_fresh(self, job: dict, res: dict) -> list:
+        """[(what, signature, index of the op | None)]"""
+        out = []
+        if 'error' in res:
+            raise fw.MachineryError(f'fresh interpreter failed: {res["error"][-300:]}')
+        ids: dict = {}
+        for k, (op, got) in enumerate(zip(job['ops'], res['ops'])):
+            tag = op[0]
+            if 'raises' in got and not (tag == 'reflect' and cs.spec_reflect(op[1]) is None and got['raises'] == 'ValueError'):
+                out.append((f'{tag} {op[1]!r} raises {got["raises"]} (creation order: op {k})', f'kind:{tag}-raises', k))
+                continue
+            if tag == 'kind':
+                if got.get('got') != op[1]:
+                    out.append((f'instantiating kind {op[1]!r} returned {got.get("got")!r} (class {got.get("cls")}) after '
+                                f'{[o[1] for o in job["ops"][:k] if o[0] == "kind" and isinstance(o[1], str)]} had been created',
+                                'kind:not-requested', k))
+                elif isinstance(op[1], str):
+                    if ids.setdefault(op[1], got['id']) != got['id'] or list(ids.values()).count(got['id']) > 1:
+                        out.append((f'primitive kind {op[1]} is not one instance of its own (ids {ids}, now {got["id"]})', 'kind:singleton', k))
+            elif tag in ('reflect', 'literal'):
+                want = cs.spec_reflect(op[1])
+                if 'raises' not in got and got.get('got') != want:
+                    out.append((f'{tag} of {op[1]!r} is of kind {got.get("got")!r} instead of {want!r}', 'kind:reflect', k))
+            elif tag == 'hier':
+                for i, (o, f) in enumerate(zip(got['outcome'], got['fields'])):
+                    if o == 'ok' and f != cs.spec_fields(op[1], i):
+                        out.append((f'hierarchy class {i}: fields {f} instead of {cs.spec_fields(op[1], i)}', 'schema:resolution', k))
+        if res['kind_pairs']['bad']:
+            out.append((f'kinds made in one process: ==, == reversed, hash equal, in dict of {res["kind_pairs"]["bad"][0]}', 'kind:eq', None))
+        if res['kind_pickle_bad']:
+            out.append((f'kind does not survive pickling: {res["kind_pickle_bad"][0]}', 'kind:pickle', None))
+        for blob, rec in zip(job['blobs'], res['blobs']):
+            prog, t = blob['prog'], blob['target']
+            if rec['outcome'] != 'ok':
+                out.append((f'class statement that succeeded in the sending process ends {rec["outcome"]} here', 'schema:nondeterministic', None))
+                continue
+            for key, c in rec.items():
+                if key == 'outcome' or (isinstance(c, dict) and cs.copy_ok(c)):
+                    continue
+                codec = key.split('/')[-1]
+                sig = 'cloudpickle-by-value' if codec == 'cloudpickle' else 'schema:pickle-fresh'
+                names = [n for n, _ in cs.spec_fields(prog, t)]
+                if codec != 'cloudpickle' and isinstance(c, dict) and copy_ok_but_access(c):
+                    if len(set(names)) != len(names):
+                        sig = 'schema-duplicate-name'
+                if sig == 'schema:pickle-fresh' and self._key_twins(prog, ['ok' if cs.spec_fields(prog, k) is not None else 'skipped' for k in range(len(prog))]):
+                    sig = 'equal-tables-different-keys'
+                out.append((f'{key} unpickled in another interpreter vs the object built there: {_brief(c)} '
+                            f'[{blob["label"]}, class {t} {prog[t][1]}]', sig, ('blob', blob)))
+        return out
+
+    def _fresh(self, hier: list) -> None:
+        jobs = self._fresh_jobs(hier)
+        results = cs.run_fresh(jobs)
+        lines, index = [], []
+        first: dict = {}
+        for job, res in zip(jobs, results):
+            found = self._oracle_fresh(job, res)
+            prims = [op[1] for op in job['ops'] if op[0] == 'kind' and isinstance(op[1], str)]
+            self.case(('fresh', job['ops']), f'fresh interpreter: {len(job["ops"])} creations, {len(job["blobs"])} shipped objects', nontrivial=True)
+            for b in job['blobs']:
+                self.case(('shipped', b['prog'], b['target']), 'hier shipped to a fresh interpreter', nontrivial=True)
+            lines.append(sexp.dumps(('kindorder', tuple(prims))))
+            impl = [[got.get('cls', '').lower(), got.get('id')] for op, got in zip(job['ops'], res['ops']) if op[0] == 'kind' and isinstance(op[1], str)]
+            index.append(('order', job, impl))
+            for op, got in zip(job['ops'], res['ops']):
+                if op[0] in ('reflect', 'literal'):
+                    lines.append(sexp.dumps(('reflect', op[1])))
+                    index.append(('reflect', op, 'none' if 'raises' in got else _listify(got.get('got'))))
+            for what, sig, where in found:
+                blob = where[1] if isinstance(where, tuple) else None
+                witness = {'kind': 'fresh', 'job': {'ops': job['ops'] if blob is None else (), 'blobs': ()},
+                           'shipped': None if blob is None else {'prog': blob['prog'], 'target': blob['target'], 'label': blob['label']}}
+                if sig not in first:
+                    first[sig] = (len(self.violations), job, where)
+                self.violate(what, witness, sig)
+        for (what, ref, impl), answer in zip(index, self.model(lines)):
+            a = sexp.loads(answer)
+            if what == 'order':
+                mod = [[c, int(i)] for c, i in a] if isinstance(a, list) else a
+                if mod != impl:
+                    self.diverge('kind singletons over a creation order', {'fresh': {'ops': ref['ops']}}, impl, mod)
+            elif _listify(a) != impl:
+                self.diverge('kind.reflect', {'reflect': ref[1]}, impl, a)
+        self._shrink_fresh(first)
+
+    def _shrink_fresh(self, first: dict) -> None:
+        """Creation orders: keep the failing creation and drop the others while the same violation stays."""
+        for sig, (idx, job, where) in list(first.items())[:4]:
+            if not isinstance(where, int) or sig in self._known_signatures():
+                continue
+            ops = list(job['ops'][:where + 1])
+            for _ in range(3):
+                cands = [ops[:k] + ops[k + 1:] for k in range(len(ops) - 1)]
+                if not cands:
+                    break
+                cands = cands[:24]
+                results = cs.run_fresh([{'ops': tuple(c), 'blobs': ()} for c in cands])
+                hit = None
+                for c, res in zip(cands, results):
+                    if 'error' in res:
+                        continue
+                    found = [f for f in self._oracle_fresh({'ops': tuple(c), 'blobs': ()}, res) if f[1] == sig and f[2] == len(c) - 1]
+                    if found:
+                        hit = (c, found[0][0])
+                        break
+                if hit is None:
+                    break
+                ops = hit[0]
+                self.violations[idx] = fw.Violation(hit[1], {'kind': 'fresh', 'job': {'ops': tuple(ops), 'blobs': ()}, 'shipped': None}, sig, None)
+
     # ---- oracle ---------------------------------------------------------------------------------------------
     @staticmethod
     def _cause_of(sort: str, ax, ay) -> typing.Optional[str]:
@@ -691,6 +1145,16 @@ class C08(fw.Check):
         for j, got in enumerate(obs.get('member', [])):
             if got != 'true':
                 bad(f'key {j} is not a member of the set of all keys: {got}', 'family:lost-key')
+        cache = obs.get('cache')
+        if isinstance(cache, dict):
+            for which, what in (('reader', 'one Reader instance (_parse_statement cache)'), ('parser', 'one parser instance')):
+                if cache[which]:
+                    j = cache[which][0]
+                    bad(f'statement {j} of a family of {cache["parsed"]} statements parsed through {what} is answered with another '
+                        f'statement\'s parse', collide() or f'{which}-cache')
+        if obs.get('items'):
+            j, names = obs['items'][0]
+            bad(f'key {j}: source[name] returns another feature for {names} once the whole family exists', collide() or 'item-access')
         return out
 
     # ---- correspondence ---------------------------------------------------------------------------------------
@@ -709,8 +1173,9 @@ class C08(fw.Check):
             if int(a) != hash(n):
                 self.diverge('pyIntHash vs hash(n)', {'n': n}, hash(n), a)
 
-    def _observe_all(self, pairs: list) -> list:
-        chunks = [pairs[i:i + 40] for i in range(0, len(pairs), 40)]
+    def _observe_all(self, pairs: list, chunk: int = 40) -> list:
+        chunk = max(1, min(chunk, -(-len(pairs) // 16))) if pairs else 1
+        chunks = [pairs[i:i + chunk] for i in range(0, len(pairs), chunk)]
         procs = min(16, os.cpu_count() or 2, max(1, len(chunks)))
         ctx = multiprocessing.get_context('fork')
         with ctx.Pool(procs, maxtasksperchild=20) as pool:
@@ -736,6 +1201,9 @@ class C08(fw.Check):
         self.notes.append('driver self-test: colliding literals told apart, malformed line rejected')
 
     def correspondence(self):
+        import time
+
+        t0 = time.time()
         self._driver_sanity()
         self._inthash()
         pairs = self._pairs()
@@ -814,6 +1282,11 @@ class C08(fw.Check):
                     first[sig] = len(self.violations)
                 self.violate(what, self._witness(fam), sig, detail=obs)
         self._shrink_first(first)
+        t1 = time.time()
+        hier = self._hierarchies()
+        t2 = time.time()
+        self._fresh(hier)
+        self.notes.append(f'wall: pairs / families {t1 - t0:.0f}s, class hierarchies {t2 - t1:.0f}s, fresh interpreters {time.time() - t2:.0f}s')
 
     # ---- shrinking / search ---------------------------------------------------------------------------------------
     @staticmethod
@@ -891,29 +1364,150 @@ class C08(fw.Check):
                     self.violate(what, self._witness(pair), sig)
         self._shrink_first(first)
         self.notes.append(f'failing-input search ({reason}): {len(pairs)} pairs around {len(seeds)} diverging cases')
+        # hierarchies: the diverging programs, their sub-programs and one-leaf variants, oracle on the real code
+        hseeds = [d.case['hier'] for d in self.divergences if isinstance(d.case, dict) and 'hier' in d.case][:20]
+        cases = []
+        for h in hseeds:
+            prog = tuplify(h['prog'])
+            cases.append({'label': 'hier:search', 'prog': prog})
+            cases += [{'label': 'hier:search', 'prog': p, 'target': t} for p, t in _smaller_programs(prog, len(prog) - 1)[:12]]
+            cases += [{'label': 'hier:search:' + label, 'prog': m} for label, m in cs.mutations(prog, self.rng, limit=6)]
+        hfirst: dict = {}
+        known = {v.signature for v in self.violations}
+        for case, obs in zip(cases, self._observe_all(cases) if cases else []):
+            for what, sig, i in self._oracle_hier(case, obs):
+                if sig not in hfirst and sig not in known:
+                    hfirst[sig] = (len(self.violations), case, i)
+                self.violate(what, {'kind': 'hier', 'label': case['label'], 'prog': case['prog'], 'cls': i}, sig)
+        self._shrink_hier(hfirst)
+        if cases:
+            self.notes.append(f'failing-input search ({reason}): {len(cases)} class hierarchies around {len(hseeds)} diverging ones')
+
+    def _replay_observe(self, case: dict) -> dict:
+        """Observation of a witness in a fresh worker process; the witnesses of all listed findings are observed in
+        one go the first time one is asked for."""
+        if not hasattr(self, '_replay_obs'):
+            self._replay_obs = {}
+            try:
+                entries = fw._load_findings(self.ID)  # pylint: disable=protected-access
+            except Exception:  # pylint: disable=broad-except
+                entries = []
+            cases = [c for c in (self._replay_case(e.get('witness') or {}) for e in entries) if c is not None]
+            if cases:
+                for c, o in zip(cases, self._observe_all(cases, chunk=1)):
+                    self._replay_obs[repr(sorted(c.items(), key=lambda kv: kv[0]))] = o
+        key = repr(sorted(case.items(), key=lambda kv: kv[0]))
+        if key not in self._replay_obs:
+            self._replay_obs[key] = self._observe_all([case])[0]
+        return self._replay_obs[key]
+
+    @staticmethod
+    def _replay_case(w: dict) -> typing.Optional[dict]:
+        if w.get('kind') == 'family':
+            return {'sort': w['sort'], 'label': w.get('label', 'replay'), 'keys': tuple(tuplify(k) for k in w['keys'])}
+        if w.get('kind') == 'pair':
+            return {'sort': w['sort'], 'label': w.get('label', 'replay'), 'x': tuplify(w['x']), 'y': tuplify(w['y'])}
+        if w.get('kind') == 'hier':
+            case = {'label': w.get('label', 'replay'), 'prog': tuplify(w['prog'])}
+            if w.get('cls') is not None:
+                case['target'] = w['cls']
+            return case
+        if w.get('kind') == 'fresh' and w.get('shipped'):
+            sh = w['shipped']
+            return {'label': sh.get('label', 'replay'), 'prog': tuplify(sh['prog']), 'target': sh['target']}
+        return None
 
     def replay_finding(self, entry):
         w = entry['witness']
         wanted = entry.get('signature')
+        case = self._replay_case(w)
         if w.get('kind') == 'family':
-            fam = {'sort': w['sort'], 'label': w.get('label', 'replay'), 'keys': tuple(tuplify(k) for k in w['keys'])}
-            obs = self._observe_all([fam])[0]
+            obs = self._replay_observe(case)
             if not obs['built']:
                 return fw.Violation(f'witness does not build: {obs["error"]}', w, 'witness-not-built')
-            fam = dict(fam, keys=tuple(fam['keys'][u] for u in obs['used']))
+            fam = dict(case, keys=tuple(case['keys'][u] for u in obs['used']))
             found = self._oracle_family(fam, obs)
         elif w.get('kind') == 'pair':
-            pair = {'sort': w['sort'], 'label': w.get('label', 'replay'), 'x': tuplify(w['x']), 'y': tuplify(w['y'])}
-            obs = self._observe_all([pair])[0]  # in a fresh process: no leftovers of the run in the caches
+            obs = self._replay_observe(case)  # in a fresh process: no leftovers of the run in the caches
             if not obs['built']:
                 return fw.Violation(f'witness does not build: {obs["error"]}', w, 'witness-not-built')
-            found = self._oracle(pair, obs)
+            found = self._oracle(case, obs)
+        elif w.get('kind') == 'hier':
+            obs = self._replay_observe(case)
+            found = [(what, sig) for what, sig, _ in self._oracle_hier(case, obs)]
+        elif w.get('kind') == 'fresh':
+            job = {'ops': tuplify(w['job']['ops']), 'blobs': ()}
+            if case is not None:
+                obs = self._replay_observe(case)
+                rec = obs['classes'][case['target']]
+                if rec is None or not rec.get('blobs'):
+                    return fw.Violation('witness does not build', w, 'witness-not-built')
+                job['blobs'] = ({'prog': case['prog'], 'target': case['target'], 'objs': rec['blobs'], 'label': case['label']},)
+            res = cs.run_fresh([job])[0]
+            found = [(what, sig) for what, sig, _ in self._oracle_fresh(job, res)]
         else:
             return None
         for what, sig in found:
             if wanted is None or sig == wanted:
                 return fw.Violation(what, w, sig)
         return None
+
+
+def copy_ok_but_access(c: dict) -> bool:
+    """the copy is the same object in every respect except attribute / item access"""
+    return bool(c.get('access')) and cs.copy_ok(dict(c, access=None))
+
+
+def _brief(c) -> str:
+    if not isinstance(c, dict):
+        return str(c)
+    return ', '.join(f'{k} {v}' for k, v in c.items() if k != 'got' and not (k == 'access' and not v))[:300] + \
+        (f'; reads {str(c["got"])[:200]}' if 'got' in c else '')
+
+
+def _listify(x):
+    return [_listify(i) for i in x] if isinstance(x, (list, tuple)) else x
+
+
+def _jsonable_hier(case: dict) -> dict:
+    return {'label': case['label'], 'prog': case['prog']}
+
+
+def _prog_size(prog) -> int:
+    return sum(3 + 2 * len(ns) + len(bases) for _, _, bases, ns in prog)
+
+
+def _restrict(prog, keep: list):
+    """the sub-program of the classes `keep` (closed under bases), re-indexed"""
+    pos = {old: new for new, old in enumerate(keep)}
+    return tuple((via, name, tuple(pos[b] for b in bases), ns) for via, name, bases, ns in (prog[k] for k in keep))
+
+
+def _smaller_programs(prog, target: int) -> list:
+    """[(program, target)] strictly smaller than `prog`, the target class kept"""
+    out = []
+    need = set()
+
+    def close(i):
+        if i not in need:
+            need.add(i)
+            for b in prog[i][2]:
+                close(b)
+
+    close(target)
+    if len(need) < len(prog):
+        keep = sorted(need)
+        out.append((_restrict(prog, keep), keep.index(target)))
+    for i in range(len(prog)):
+        if i != target and not any(i in bases for _, _, bases, _ in prog):
+            keep = [k for k in range(len(prog)) if k != i]
+            out.append((_restrict(prog, keep), keep.index(target)))
+        via, name, bases, ns = prog[i]
+        for j in range(len(ns)):
+            out.append((prog[:i] + ((via, name, bases, ns[:j] + ns[j + 1:]),) + prog[i + 1:], target))
+        for b in range(len(bases)):
+            out.append((prog[:i] + ((via, name, bases[:b] + bases[b + 1:], ns),) + prog[i + 1:], target))
+    return out[:48]
 
 
 def _nodes(ast):
